@@ -47,8 +47,28 @@ def step (line : String) : String :=
       | .file s =>
         match get cfg root s with
         | .http => s!"ok {hex s} http"
+        | .urlDisabled => s!"ok {hex s} urldisabled"
         | .disabled => s!"ok {hex s} disabled"
         | .openFile a => s!"ok {hex s} {hex a}"
+    | _, _ => "bad-op"
+  | ["putget", af, au, af2, au2, r, f] =>
+    -- Put under one setting of AllowFiles/AllowUrls, Get under another
+    match unhex r, unhex f with
+    | some root, some full =>
+      let cfg : Cfg := { allowFiles := flag af, allowUrls := flag au }
+      let cfg2 : Cfg := { allowFiles := flag af2, allowUrls := flag au2 }
+      let showGet (s : Str) : String :=
+        match get cfg2 root s with
+        | .http => s!"ok {hex s} http"
+        | .urlDisabled => s!"ok {hex s} urldisabled"
+        | .disabled => s!"ok {hex s} disabled"
+        | .openFile a => s!"ok {hex s} {hex a}"
+      match put cfg root full with
+      | .urlDisabled => "urldisabled"
+      | .fileDisabled => "filedisabled"
+      | .reject => "reject"
+      | .url s => showGet s
+      | .file s => showGet s
     | _, _ => "bad-op"
   | ["putmany", af, au, r, fs] =>
     match unhex r, unhexList fs with
